@@ -70,14 +70,15 @@ var genesisSeed = []byte{0xC7, 0x5E, 0xED}
 // ---------- the real stack ----------
 
 type realStack struct {
-	cfg   stackCfg
-	dir   string
-	base  chain.Store
-	mem   *memdb.Store
-	top   beacon.CallbackStore
-	mu    sync.Mutex
-	cbs   []sout // beacons delivered to the registered callback
-	group *key.Group
+	cfg     stackCfg
+	dir     string
+	created bool // the bolt file exists: later builds are daemon-style reopens
+	base    chain.Store
+	mem     *memdb.Store
+	top     beacon.CallbackStore
+	mu      sync.Mutex
+	cbs     []sout // beacons delivered to the registered callback
+	group   *key.Group
 }
 
 func newRealStack(cfg stackCfg, root string) (*realStack, error) {
@@ -104,11 +105,19 @@ func (rs *realStack) build() error {
 	if rs.cfg.kind == "mem" {
 		rs.base = rs.mem
 	} else {
-		st, err := boltdb.NewBoltStore(ctx, l, rs.dir)
+		// the file is created with the configuration's context (IsATest is the only way to
+		// get an untrimmed file from a fresh directory); every later start reopens it the way
+		// a daemon does, through NewBoltStore's format probe
+		octx := ctx
+		if rs.created {
+			octx = reopenCtx(rs.cfg.chained)
+		}
+		st, err := boltdb.NewBoltStore(octx, l, rs.dir)
 		if err != nil {
 			return err
 		}
 		rs.base = st
+		rs.created = true
 	}
 	if err := rs.base.Put(ctx, chain.GenesisBeacon(cp(genesisSeed))); err != nil {
 		return err
@@ -147,7 +156,9 @@ func (rs *realStack) waitCallbacks(n int) int {
 	}
 }
 
-func (rs *realStack) restart(expectCbs int) error {
+// restart stops the stack and builds it again; contended: another handle still holds the
+// file lock of the bolt file for lockHold when the new store is opened.
+func (rs *realStack) restart(expectCbs int, contended bool) error {
 	rs.waitCallbacks(expectCbs) // let the worker drain before the store is stopped
 	top := rs.top
 	rs.top = nil
@@ -155,7 +166,17 @@ func (rs *realStack) restart(expectCbs int) error {
 	if err := top.Close(); err != nil {
 		return err
 	}
-	return rs.build()
+	wait := func() {}
+	if contended && rs.dir != "" {
+		w, err := holdLock(rs.dir, lockHold)
+		if err != nil {
+			return err
+		}
+		wait = w
+	}
+	err := rs.build()
+	wait()
+	return err
 }
 
 func (rs *realStack) close() {
@@ -236,7 +257,9 @@ func (rs *realStack) apply(e sev, expectCbs int) (string, error) {
 			&common.Beacon{Round: e.r, PreviousSig: cp(e.prev), Signature: cp(e.sig)})
 		return fmt.Sprint(ok), nil
 	case "restart":
-		return "restarted", rs.restart(expectCbs)
+		return "restarted", rs.restart(expectCbs, false)
+	case "restart-contended":
+		return "restarted", rs.restart(expectCbs, true)
 	}
 	return "", fmt.Errorf("unknown event %q", e.kind)
 }
@@ -291,7 +314,7 @@ func (e sev) short() string {
 	case "try":
 		return fmt.Sprintf("try(last=%d,{%d,prev=%x,sig=%x}%s)", e.lr, e.r, e.prev, e.sig, c)
 	}
-	return "restart"
+	return e.kind
 }
 
 // ---------- monitor M: contiguous, linked, never rewritten, written once ----------
@@ -308,6 +331,23 @@ type stackMonitor struct {
 func (m *stackMonitor) check(i int, e sev, o sobs) {
 	sc := o.scan
 	where := fmt.Sprintf("event %d %s -> %s", i, e.short(), o.res)
+	if e.kind == "restart" || e.kind == "restart-contended" {
+		// stop/start: every round reads back byte-identical to what was stored before
+		same := len(sc) == len(m.prev)
+		for j := 0; same && j < len(sc); j++ {
+			same = sameBeacon(sc[j], m.prev[j])
+		}
+		if !same {
+			a, b := "nothing", "nothing"
+			if len(m.prev) > 0 {
+				a = m.prev[len(m.prev)-1].short()
+			}
+			if len(sc) > 0 {
+				b = sc[len(sc)-1].short()
+			}
+			m.fail("stored-rounds-differ-after-restart", fmt.Sprintf("%s: %d rounds ending in %s before the restart, %d rounds ending in %s after it", where, len(m.prev), a, len(sc), b))
+		}
+	}
 	if len(sc) == 0 || o.last.kind != "beacon" {
 		m.fail("empty", where+": scan or Last is empty")
 		return
@@ -494,6 +534,27 @@ func stackCorpus() [][]sev {
 	}
 }
 
+// contendedRestart: chain 0..5 through the stack (both writers), a restart whose reopen has to
+// wait for the file lock, every round read back (the scan after each event), the next rounds
+// appended, a plain restart, one more round.
+func contendedRestart() []sev {
+	s := func(r byte) []byte { return []byte{0xE0 | r, 0xA5, r} }
+	g := genesisSeed
+	put := func(r byte) sev {
+		prev := g
+		if r > 1 {
+			prev = s(r - 1)
+		}
+		return sev{kind: "put", r: uint64(r), prev: prev, sig: s(r)}
+	}
+	try := func(r byte) sev {
+		e := put(r)
+		e.kind, e.lr, e.lsig = "try", uint64(r-1), s(r-1)
+		return e
+	}
+	return []sev{put(1), put(2), try(3), put(4), try(5), {kind: "restart-contended"}, put(6), put(6), try(7), {kind: "restart"}, put(8)}
+}
+
 // RunStack is the engine "stack" (C02).
 func RunStack(outDir string, seed int64, tier string) error {
 	rep := emit.NewReport("stack", seed, tier)
@@ -510,19 +571,24 @@ func RunStack(outDir string, seed int64, tier string) error {
 	var lines, descr []string
 	seen := map[string]bool{}
 
-	runOne := func(cfg stackCfg, fixed []sev, n int, appendHeavy bool, from string) error {
+	var mu sync.Mutex // guards rep, lines, descr, seen (the contended restarts run side by side)
+	type caseOut struct{ line, descr string }
+	late := make([]*caseOut, len(stackCfgs)) // cases of the side-by-side runs, appended in order at the end
+	runOne := func(cfg stackCfg, fixed []sev, n int, appendHeavy bool, from string, slot int) error {
 		rs, err := newRealStack(cfg, root)
 		if err != nil {
 			return fmt.Errorf("building the stack on %s: %w", cfg.name, err)
 		}
 		defer rs.close()
 		failed := map[string]bool{}
-		var trace []string
+		var trace, counts []string
 		mon := &stackMonitor{cfg: cfg, history: map[uint64]sout{}}
 		mon.fail = func(class, what string) {
 			if !failed[class] {
 				failed[class] = true
+				mu.Lock()
 				rep.Fail(class, what, map[string]interface{}{"config": cfg.name, "from": from, "events": strings.Join(trace, "; ")})
+				mu.Unlock()
 			}
 		}
 		sc, last := rs.scan()
@@ -559,15 +625,18 @@ func RunStack(outDir string, seed int64, tier string) error {
 			last = nl
 			evs = append(evs, e.coq())
 			obs = append(obs, o.coq())
-			rep.Count(cfg.name + "/" + from)
 			what := e.what
 			if what == "" {
 				what = e.kind
 			}
-			rep.Count("event/" + what)
-			rep.Count("result/" + res)
+			counts = append(counts, cfg.name+"/"+from, "event/"+what, "result/"+res)
 		}
 		mon.callbacks(rs.cbsSnapshot(mon.stored))
+		mu.Lock()
+		defer mu.Unlock()
+		for _, c := range counts {
+			rep.Count(c)
+		}
 		rep.Evaluations++
 		key := cfg.name + "|" + strings.Join(trace, ";")
 		if !seen[key] {
@@ -576,15 +645,38 @@ func RunStack(outDir string, seed int64, tier string) error {
 				rep.DistinctNontrivial++
 			}
 		}
-		lines = append(lines, fmt.Sprintf("KCase %s %s %s %s %s", cfg.coqKind, emit.Bool(cfg.chained), emit.Bytes(genesisSeed), emit.List(evs), emit.List(obs)))
-		descr = append(descr, cfg.name+" ("+from+"): "+strings.Join(trace, "; "))
+		co := &caseOut{fmt.Sprintf("KCase %s %s %s %s %s", cfg.coqKind, emit.Bool(cfg.chained), emit.Bytes(genesisSeed), emit.List(evs), emit.List(obs)),
+			cfg.name + " (" + from + "): " + strings.Join(trace, "; ")}
+		if slot >= 0 {
+			late[slot] = co
+			return nil
+		}
+		lines = append(lines, co.line)
+		descr = append(descr, co.descr)
 		rep.Sample(cfg.name+": "+strings.Join(trace, "; "), 8)
 		return nil
 	}
 
+	// restart histories with the file lock still held when the new store is opened: they wait
+	// lockHold in real time, so they run side by side with everything else and are recorded
+	// after it (fixed sequences: the generator is not touched)
+	var cwg sync.WaitGroup
+	cerrs := make([]error, len(stackCfgs))
+	for i, cfg := range stackCfgs {
+		if cfg.kind == "mem" {
+			continue
+		}
+		cwg.Add(1)
+		go func(i int, cfg stackCfg) {
+			defer cwg.Done()
+			c := contendedRestart()
+			cerrs[i] = runOne(cfg, c, len(c), false, "restart-contended", i)
+		}(i, cfg)
+	}
+
 	for _, cfg := range stackCfgs {
 		for _, c := range stackCorpus() {
-			if err := runOne(cfg, c, len(c), false, "corpus"); err != nil {
+			if err := runOne(cfg, c, len(c), false, "corpus", -1); err != nil {
 				return err
 			}
 		}
@@ -592,13 +684,25 @@ func RunStack(outDir string, seed int64, tier string) error {
 	for _, cfg := range stackCfgs {
 		for i := 0; i < nseq; i++ {
 			heavy := i%3 == 0
-			if err := runOne(cfg, nil, nlen+g.rng.Intn(8), heavy, map[bool]string{true: "random-append-heavy", false: "random"}[heavy]); err != nil {
+			if err := runOne(cfg, nil, nlen+g.rng.Intn(8), heavy, map[bool]string{true: "random-append-heavy", false: "random"}[heavy], -1); err != nil {
 				return err
 			}
 		}
 	}
+	cwg.Wait()
+	for _, err := range cerrs {
+		if err != nil {
+			return err
+		}
+	}
+	for _, co := range late {
+		if co != nil {
+			lines = append(lines, co.line)
+			descr = append(descr, co.descr)
+		}
+	}
 	rep.Extra["resync_raw_put"] = resyncObservation(root)
-	rep.Rule = "one evaluation = one event sequence on the real stack NewCallbackStore(newAppendStore(NewSchemeStore(newDiscrepancyStore(base)))) over untrimmed bolt, trimmed bolt, memdb 10 and 12, chained and unchained scheme/context; events chosen by looking at the real head: next round (right / wrong / arbitrary previous signature), duplicates (same, other signature, other previous signature), gaps, old rounds, cancelled contexts, through Put or through chainStore.tryAppend with a fresh or stale view, and close/reopen restarts; after every event the result class, a full cursor scan and Last are recorded; distinct = distinct (configuration, event trace); non-trivial = the head moved at least once"
+	rep.Rule = "one evaluation = one event sequence on the real stack NewCallbackStore(newAppendStore(NewSchemeStore(newDiscrepancyStore(base)))) over untrimmed bolt, trimmed bolt, memdb 10 and 12, chained and unchained scheme/context; events chosen by looking at the real head: next round (right / wrong / arbitrary previous signature), duplicates (same, other signature, other previous signature), gaps, old rounds, cancelled contexts, through Put or through chainStore.tryAppend with a fresh or stale view, and close/reopen restarts (the bolt file is reopened through the daemon's format probe; once per bolt configuration while another handle still holds the file lock for 1.5 s); after every event the result class, a full cursor scan and Last are recorded; distinct = distinct (configuration, event trace); non-trivial = the head moved at least once"
 	if err := rep.Shard(outDir, "cases_stack", []string{"From DV Require Import Model.Backends Model.StoreStack Corr.StackCorr."}, "kcase", "mismatches", lines, descr, 12); err != nil {
 		return err
 	}
